@@ -1,8 +1,10 @@
 (** Extraction of the interpreter models (M4, coq/Interp) for the correspondence checks of
     C14, C04, C03.  Directives: [ExtrOcamlBasic] only; N/positive/nat stay Coq inductives. *)
 From Coq Require Import Extraction ExtrOcamlBasic.
-From Pi2 Require Import ML.Syntax ML.Subst ML.Machine Interp.Calls.
+From Pi2 Require Import ML.Syntax ML.Subst ML.Machine ML.Journal Interp.Calls Interp.Module.
 Extraction Language OCaml.
 Extraction "interp_model.ml" pat_eqb guards_sound exec verify st0 set_stack
   py_inst py_esubst py_ssubst fresh_tracker stateful_step ser_step ser_run3 emit
-  dflags_fixed dflags_pinned deser numbering rn_tracker wf_code.
+  dflags_fixed dflags_pinned deser numbering rn_tracker wf_code
+  expand npat_eqb flat_axioms gamma_calls claim_calls mgamma_calls mclaim_calls mod_files
+  gamma_axioms declared_claims.
